@@ -1186,7 +1186,7 @@ class TdlChannel:
                 # Get the indexes from the slice object. This is a tuple
                 # with (start, stop, step)
                 indexes = carrier_indexes.indices(fft_size)
-                block_size = (indexes[1] - indexes[0]) // indexes[2]
+                block_size = len(range(*indexes))
             else:
                 assert isinstance(carrier_indexes, (np.ndarray, list))
                 block_size = len(carrier_indexes)
